@@ -62,4 +62,9 @@ CLAIMS = {
         "note": TRUST,
         "technique": "MIR pairing (take/restore path rule), dominance chain, value-origin rules",
     },
+    "C16": {
+        "text": "Partial, structural: decides on MIR that observers (&self methods) of SortedWritesTable read raw row storage only under stale_rows == 0 (closures inherit the control dependence of the block building them) and that the Rows wrappers return Some only for non-stale rows; that Index::refresh clears exactly on a major-version change, bulk-rebuilds only after that clear, and records the version read at entry on every merging path; that merge_all/merge_simple record every notified batch in `touched` and reset both index caches of touched tables; that generation has a frozen writer set and every row compaction is dominated by a bump; that merge_table has no callers; that a key gets a new hash entry only after a lookup miss (R-INSERT-AFTER-PROBE, shared with C05); that for each Table impl clear() resets every field merge() writes (found F4: DisplacedTable::clear left lookup_table and pending writes; fixed). Does NOT decide model equivalence with a plain map over operation sequences. R-NOTIFY of DESIGN.md is not armed in this revision.",
+        "note": TRUST,
+        "technique": "MIR control-dependence (edge-dominance) read discipline, protocol dominance/path rules, field-reset coverage (effect sets), who-may-write/call inventories",
+    },
 }
